@@ -22,3 +22,7 @@ pub assume_specification<T>[Option::<T>::replace](o: &mut Option<T>, value: T) -
 pub assume_specification[String::len](s: &String) -> (r: usize);
 pub assume_specification<T: Clone>[<[T]>::to_vec](s: &[T]) -> (r: Vec<T>)
     ensures r@.len() == s@.len(), forall|i: int| 0 <= i < s@.len() ==> cloned(#[trigger] s@[i], r@[i]);
+// closure-taking Option/Result combinators (their definitions; the closure is called only in the case shown)
+pub assume_specification<T, F: FnOnce() -> Option<T>>[Option::<T>::or_else](o: Option<T>, f: F) -> (r: Option<T>)
+    requires o is None ==> f.requires(()),
+    ensures o is Some ==> r == o, o is None ==> f.ensures((), r);
